@@ -75,6 +75,13 @@ pub fn run(pid: &'static str, thorough: bool) -> i32 {
             rep.extend(a.violations);
             rep.extend(b.violations);
             rep.sample(json!({"u1_history": full.labels(&full.alphabet.iter().cloned().step_by(full.alphabet.len() / 3 + 1).collect::<Vec<_>>())}));
+            if pid == "C11" {
+                let (nsets, v) = hist::explore_perms(full, thorough);
+                rep.set("u1_permutation_root_sets", json!(nsets));
+                states += nsets;
+                transitions += nsets * 2;
+                rep.extend(v);
+            }
             // U2 graphs
             let g = graphs::explore(pid, thorough);
             rep.set("u2_graphs", json!({"graphs": g.graphs, "graphs_with_edges": g.graphs_with_edges, "graphs_with_cycles": g.graphs_with_cycle, "root_sequences": g.histories, "registrations": g.registrations, "permutation_root_sets": g.perm_sets, "distinct_full_registries": g.distinct_registries.len(), "plans": g.per_plan}));
@@ -144,6 +151,7 @@ pub fn replay(pid: &str, body: &Value) -> i32 {
     let case = &body["case"];
     let res = match case["kind"].as_str() {
         Some("u1-history") => hist::replay_case(pid, case),
+        Some("u1-perm") => hist::replay_perm(case),
         Some("u2-graph") => graphs::replay_case(pid, case),
         Some("retain") => retain::replay_case(case, pid == "C01"),
         Some("builder") | Some("interner") => {
